@@ -665,10 +665,10 @@ func asciiLower(s string) string {
 // (IEEE comparisons); without l, all q >= round(p).
 func Substring(s string, p, l float64, hasLen bool) string {
 	rs := []rune(s)
-	rp := Round(p)
+	rp := RoundForCompare(p)
 	var end float64
 	if hasLen {
-		end = rp + Round(l)
+		end = rp + RoundForCompare(l)
 	}
 	out := make([]rune, 0, len(rs))
 	for k, r := range rs {
